@@ -99,9 +99,23 @@ def oracle_multiday(ctx, c, res, steps=None, cls="method"):
             return
 
 
+def measure_req_ok(ctx, case, r):
+    """the hypothesis `ReqOk` of the day theorems, evaluated on the requests as they really were at
+    the start of the day (the report states the real planners held): T >= 0, 0 <= P <= S,
+    stationary => P = 0, report not complete"""
+    from harness.adapters import crew as C
+
+    stationary = case[1]
+    for q in map(C.req_fields, case[7]):
+        (sid, S, P, ip, trav, T, scost, w, td) = q
+        ok = T >= 0 and 0 <= P <= S and (not stationary or P == 0)
+        ctx.count("hyp:ReqOk-ok" if ok else "hyp:ReqOk-miss")
+
+
 def oracle_day(ctx, case, r, check_requeue=True):
     from harness.adapters import crew as C
 
+    measure_req_ok(ctx, case, r)
     (cls, stationary, cost_type, unit_cost, budget, crews, consider_weather, reqs) = case[:8]
     inp = {"day": CC.case_json(case)}
     n_crews = 1 if stationary else crews
@@ -250,6 +264,66 @@ def six_sites_campaign():
             "sites": [(500, 0, 0)] * 6, "weather": None}
 
 
+def stage_fractional(ctx):
+    """fractional minutes end to end: a daylight-sensitive method, daylight hours off the quarter-hour
+    grid given as exact Fractions, a non-empty plan.  The real deploy_crews then runs on fractional
+    minutes; the integer model is fed the same instance in units of 1/q minute (q = denominator of
+    the budget; `surveyStep_scale`: the model is homogeneous), replies compared after scaling; the
+    budget clauses are evaluated exactly on the wrapper trace."""
+    from fractions import Fraction
+    from harness.adapters import crew as C
+
+    cases = []
+    for _ in range(ctx.pick(1200, 20000)):
+        base = CC.random_day(ctx.rng, ctx.rng.choice(["small", "small", "big"]))
+        if base[1]:
+            continue
+        h = ctx.rng.choice([Fraction(737, 100), Fraction(69183, 10000), Fraction(ctx.rng.randint(1, 2399), 100),
+                            Fraction(ctx.rng.randint(1, 167), 7), Fraction(ctx.rng.randint(1, 311), 13)])
+        w = ctx.rng.choice([4, 6, 8, 8, 10, 12, 24])
+        budget = 60 * min(Fraction(w), h)
+        case = (base[0], False, base[2], base[3], budget, max(base[5], 1), base[6], base[7], 0)
+        cases.append((case, (w, h)))
+    lines = []
+    for case, dl in cases:
+        q = Fraction(case[4]).denominator
+        scaled = list(case)
+        scaled[4] = int(case[4] * q)
+        scaled[7] = [(sid, S * q, P * q, ip, trav * q, T * q, sc, wx, td * q) for (sid, S, P, ip, trav, T, sc, wx, td)
+                     in map(C.req_fields, case[7])]
+        lines.append(C.day_line(tuple(scaled)))
+    model = core.LeanDriver("drv_crew").run(lines)
+    for (case, dl), ml in zip(cases, model):
+        r = C.impl_day(case, daylight=dl)
+        q = Fraction(case[4]).denominator
+        il = C.impl_day_reply(case, r, scale=q)
+        ctx.evaluations += 1
+        if il != ml:
+            ctx.disagree("crew.day-fractional/" + case[0], {"day": _frac_json(case), "daylight": [dl[0], str(dl[1])]}, ml, il)
+        n0 = len(ctx.violations)
+        oracle_day(ctx, case, r, check_requeue=False)
+        for v in ctx.violations[n0:]:
+            v["signature"] = v["signature"].replace("C08:day:", "C08:day-fractional:")
+            v["input"] = {"fractional_day": _frac_json(case), "daylight": [dl[0], str(dl[1])]}
+        first = {}
+        for t in r.trace:
+            first.setdefault(t["crew"], t["R"])
+        if any(v != case[4] for v in first.values()):
+            ctx.violate("C08:budget:not-min-workday-daylight", "crew does not start the day with 60*min(workday, daylight) (fractional)",
+                        {"fractional_day": _frac_json(case), "daylight": [dl[0], str(dl[1])]})
+        frac = q > 1
+        ctx.count("fractional:" + ("non-integer-minutes" if frac else "integer-minutes"))
+        ctx.nontrivial.add(("frac", case[0], frac, dl[1] < dl[0], min(len(r.trace), 4),
+                            any(t["last"] and t["after"][3] for t in r.trace)))
+    ctx.traces += len(cases)
+
+
+def _frac_json(case):
+    c = CC.case_json(case)
+    c[4] = str(case[4])
+    return c
+
+
 def stage_budget(ctx):
     from harness.adapters import crew as C
 
@@ -362,12 +436,19 @@ def run(ctx):
     stage_multiday(ctx)
     stage_days(ctx)
     stage_campaigns(ctx)
+    stage_fractional(ctx)
     stage_budget(ctx)
     stage_weather(ctx)
     wholerun_oracle(ctx)
     hyp_ok = ctx.counts.get("hyp:step-ok", 0)
     hyp_all = hyp_ok + ctx.counts.get("hyp:step-outside(stationary,P>0)", 0)
-    ctx.extra["hypothesis_hit_rate"] = {"StepOk": round(hyp_ok / max(hyp_all, 1), 4), "ReqOk": 1.0}
+    rq_ok = ctx.counts.get("hyp:ReqOk-ok", 0)
+    rq_all = rq_ok + ctx.counts.get("hyp:ReqOk-miss", 0)
+    ctx.extra["hypothesis_hit_rate"] = {
+        "StepOk": round(hyp_ok / max(hyp_all, 1), 4),
+        "ReqOk": round(rq_ok / max(rq_all, 1), 4),
+        "ReqOk_evaluated_on": "%d requests: generated day cases, campaign days (reports left by the real code), "
+                              "fractional-daylight days, whole-run survey events" % rq_all}
     ctx.assumptions.append("minutes are integers in the day-loop theorems; fractional daylight covered by the ordered-field step theorems and the quarter-hour oracle")
     ctx.assumptions.append("sampled travel time (random.choice in _get_travel_time) is an input of the model")
 
@@ -402,6 +483,19 @@ def replay(ctx, data):
         print("impl :", C.impl_multiday_reply(res))
         print("model:", core.LeanDriver("drv_crew").run([C.multiday_line(*c)])[0])
         oracle_multiday(ctx, c, res, steps, inp.get("cls", "method"))
+    elif "fractional_day" in inp:
+        from fractions import Fraction
+
+        c = list(CC.case_from_json(inp["fractional_day"]))
+        c[4] = Fraction(c[4])
+        c = tuple(c)
+        dl = (inp["daylight"][0], Fraction(inp["daylight"][1]))
+        r = C.impl_day(c, daylight=dl)
+        print("impl (x denominator):", C.impl_day_reply(c, r, scale=Fraction(c[4]).denominator))
+        n0 = len(ctx.violations)
+        oracle_day(ctx, c, r, check_requeue=False)
+        for v in ctx.violations[n0:]:
+            v["signature"] = v["signature"].replace("C08:day:", "C08:day-fractional:")
     elif "day" in inp:
         c = CC.case_from_json(inp["day"])
         r = C.impl_day(c)
